@@ -10,6 +10,7 @@ Local Open Scope list_scope.
 Definition RETURNED := 0.
 Definition PANICKED := 1.
 Definition TIMEDOUT := 2.
+Definition ABORTED := 3.    (* the process running the case died (stack overflow, abort) *)
 
 Record sq_obs := SO {
   so_key : string;
